@@ -316,7 +316,12 @@ func (s *Server) handleDiscovery(clientMAC net.HardwareAddr, data []byte) {
 		return
 	}
 
-	payload := data[6 : 6+hdr.Length]
+	if int(hdr.Length) > len(data)-6 {
+		s.logger.Debug("PPPoE length exceeds frame", zap.Uint16("length", hdr.Length))
+		return
+	}
+
+	payload := data[6 : 6+int(hdr.Length)]
 	tags, err := ParseTags(payload)
 	if err != nil {
 		s.logger.Debug("Invalid PPPoE tags", zap.Error(err))
